@@ -872,10 +872,23 @@ def _read_header_batch(
 
     """
     reader = ValidatedReader(ipc.open_stream(source), ipc_validation)
+    # A raising ``on_log`` callback must not leave the header stream half-read:
+    # the unread remainder would be parsed as the next response.  Hold the
+    # failure until the stream has been consumed, then re-raise it.
+    callback_errors: list[Exception] = []
+
+    def guarded_on_log(msg: Message) -> None:
+        if on_log is None or callback_errors:
+            return
+        try:
+            on_log(msg)
+        except Exception as exc:
+            callback_errors.append(exc)
+
     try:
         while True:
             batch, cm = reader.read_next_batch_with_custom_metadata()
-            if not _dispatch_log_or_error(batch, cm, on_log):
+            if not _dispatch_log_or_error(batch, cm, guarded_on_log):
                 break
     except StopIteration:
         raise RpcError(
@@ -888,6 +901,8 @@ def _read_header_batch(
         _drain_stream(reader)
         raise
     _drain_stream(reader)
+    if callback_errors:
+        raise callback_errors[0]
     return resolve_external_location(batch, cm, external_config, on_log, ipc_validation)
 
 
@@ -1030,6 +1045,15 @@ def _read_unary_response(
         batch = _read_batch_with_log_check(reader, on_log, external_config, shm=shm)
     except RpcError:
         _drain_stream(reader)
+        raise
+    except (StopIteration, EOFError, OSError, pa.ArrowInvalid):
+        raise
+    except Exception:
+        # Anything else came from above the transport -- typically the
+        # caller's ``on_log`` callback raising.  The rest of the response is
+        # still in the pipe; left there it is read as the next call's answer.
+        with contextlib.suppress(Exception):
+            _drain_stream(reader)
         raise
     try:
         _drain_stream(reader)
